@@ -110,6 +110,7 @@ inductive Ev where
   | data (bs : Bytes)
   | eof
   | quiet
+  | reset            -- the peer aborted the connection (TCP RST): reads as EOF (`network.recv`), sends raise
 deriving Repr, DecidableEq
 
 /-- result of one `await_response` -/
@@ -135,6 +136,7 @@ def await (buf : Bytes) : List Ev → Await × Bytes × List Ev
       | .data bs => await (buf ++ bs) evs
       | .eof => if buf.isEmpty then (.stop, buf, .eof :: evs) else (.rxerror, buf, .eof :: evs)
       | .quiet => (.timeout, buf, evs)
+      | .reset => if buf.isEmpty then (.stop, buf, .reset :: evs) else (.rxerror, buf, .reset :: evs)
 
 /-! ### replies -/
 
@@ -160,6 +162,7 @@ inductive Err where
   | unrecognized   -- `assert replies, "Response Unrecognized"`
   | unmodelled     -- a payload outside the shape `parseFrame` covers (never generated by the harness)
   | mismatch       -- `harvest`: context or service of the reply differs from the request's
+  | senderror      -- `socket.error` out of `client.send` while issuing (the peer aborted the connection)
   | incomplete     -- `pipeline`/`synchronous`: "Communication ceased before harvesting all ... responses"
   | partialHeld    -- `client.__exit__`: "Partial response parsed; client session is no longer valid"
 deriving Repr, DecidableEq
@@ -399,8 +402,13 @@ deriving Repr
 inductive UseOut where
   | openfail (conn : Nat) (e : OpenErr)             -- `open_gateway` raised (out of `proxy.__enter__`)
   | ran (conn : Nat) (rs : List Res) (e : End)      -- the operation ran on connection `conn`
+  | identified (conn : Nat) (e : Option IdErr)      -- `list_identity()` ran on connection `conn`
   | refused                                         -- no connection could be made
 deriving Repr
+
+/-- the peer aborted the idle connection (nothing buffered, RST next): the first send of the next use raises
+`socket.error` before anything is in flight -/
+def sendFails (st : CSt) : Bool := st.buf.isEmpty && st.pend.isEmpty && (st.evs.head? == some .reset)
 
 /-- `with proxy: list( proxy.read( ... ))` where the `n`-th connection opened delivers `conns[n]`.
 `__enter__` opens the gateway if there is none (an exception there leaves none); an exception inside the
@@ -409,6 +417,7 @@ def proxyUse (P : Frame → Resp) (ident : Bool) (depth : Nat) (conns : List (Li
     (issued : List Iss) : Proxy × UseOut :=
   match p.gateway with
   | some (n, st) =>
+    if !issued.isEmpty && sendFails st then ({ p with gateway := none }, .ran n [] (.error .senderror)) else
     match pipeline P depth 0 issued st with
     | (rs, .ok, st') => ({ p with gateway := some (n, st') }, .ran n rs .ok)
     | (rs, .error e, _) => ({ p with gateway := none }, .ran n rs (.error e))
@@ -423,11 +432,41 @@ def proxyUse (P : Frame → Resp) (ident : Bool) (depth : Nat) (conns : List (Li
         | (rs, .ok, st') => ({ gateway := some (p.opened, st'), opened := p.opened + 1 }, .ran p.opened rs .ok)
         | (rs, .error e, _) => ({ gateway := none, opened := p.opened + 1 }, .ran p.opened rs (.error e))
 
+/-- `proxy.list_identity()`: `@maintain_gateway` runs it inside `with proxy:` — the gateway is opened if there is
+none, the List Identity exchange runs on it, and any exception discards the gateway -/
+def proxyIdentify (ident : Bool) (conns : List (List Ev)) (p : Proxy) : Proxy × UseOut :=
+  match p.gateway with
+  | some (n, st) =>
+    match identify st with
+    | .ok st' => ({ p with gateway := some (n, st') }, .identified n none)
+    | .error e => ({ p with gateway := none }, .identified n (some e))
+  | none =>
+    match conns[p.opened]? with
+    | none => (p, .refused)
+    | some evs =>
+      match openGateway ident evs with
+      | .error e => ({ gateway := none, opened := p.opened + 1 }, .openfail p.opened e)
+      | .ok st =>
+        match identify st with
+        | .ok st' => ({ gateway := some (p.opened, st'), opened := p.opened + 1 }, .identified p.opened none)
+        | .error e => ({ gateway := none, opened := p.opened + 1 }, .identified p.opened (some e))
+
+/-- one use of the proxy: a read/write of some operations, or `list_identity()` -/
+inductive Use where
+  | read (issued : List Iss)
+  | identity
+deriving Repr
+
+def proxyStep (P : Frame → Resp) (ident : Bool) (depth : Nat) (conns : List (List Ev)) (p : Proxy) :
+    Use → Proxy × UseOut
+  | .read issued => proxyUse P ident depth conns p issued
+  | .identity => proxyIdentify ident conns p
+
 def proxyRun (P : Frame → Resp) (ident : Bool) (depth : Nat) (conns : List (List Ev)) :
-    Proxy → List (List Iss) → List UseOut
+    Proxy → List Use → List UseOut
   | _, [] => []
   | p, u :: us =>
-    let (p', o) := proxyUse P ident depth conns p u
+    let (p', o) := proxyStep P ident depth conns p u
     o :: proxyRun P ident depth conns p' us
 
 /-! ### the concrete reply parser used by the driver -/
